@@ -438,7 +438,7 @@ class ProgGen:
             ops.append("attr")
         g = exprdsl.Gen(self.rng, vars_num=nums, consts=(0, 1, 2, -1, 3),
                         funcs=("<func>f", "<func>g"), arrays=arrays, kwnames=("k", "m"), ops=ops,
-                        float_consts=(0.5,) if self.float_literals else ())
+                        float_consts=(0.5,) if self.float_literals else (), literal_exponents=True)
         return g
 
     def index_expr(self, defined):
